@@ -950,6 +950,7 @@ def main():
     ctx = vlib.Ctx(PID)
     if not ctx.replay:
         vlib.proof_phase(ctx, extra_targets=['Extract/ExtractFwdDecl.vo'])
+        vlib.proof_phase_extra(ctx, 'Properties_C19_source')      # write_forward_declarations as translated from generator.hpp (translators/fwdwrite.py)
     model, log1 = vlib.ocaml_driver('fwddecl_model', 'Extract/ExtractFwdDecl.vo', ['ocaml/fwddecl_driver.ml'])
     impl, log2 = vlib.build_cpp('h3_fwddecl', ['harness/h3/fwddecl_driver.cpp'])
     if ctx.replay:
